@@ -6,7 +6,7 @@
    against the Go code by the correspondence check (Model/Counter.v, Map.v). *)
 From Coq Require Import List ZArith Permutation.
 From Orda.Model Require Import Base Time Ops Counter Map List.
-From Orda.Proofs Require Import TimeFacts OrderFacts Permute Sys CounterFacts MapFacts MapConv SnapshotFacts ListFacts ListConv.
+From Orda.Proofs Require Import TimeFacts OrderFacts Permute Sys CounterFacts MapFacts MapConv SnapshotFacts ListFacts ListConv ListSys.
 
 (* Counter: ANY two orders of the same operations give the same value (no readiness needed).
    [no_snap]: the operations exchanged between replicas; the snapshot operation a client creates with the
@@ -151,3 +151,46 @@ Proof.
   - eexists _, _, _. split; [vm_compute; reflexivity|]. split; vm_compute; reflexivity.
 Qed.
 Print Assumptions C01_list_local_example.
+
+(* List at system level (Proofs/ListSys.v): the replicated system of Sys.v — any number of replicas, one server log,
+   generate / push / deliver-foreign-in-log-order / skip-own arbitrarily interleaved — instantiated with the list.
+   Executability of each replica's applied sequence is no longer a premise: delivery in log order provides the addressed
+   elements, uniqueness of operation identifiers (the Gen rule's premise; C15) provides freshness.  In EVERY reachable
+   state two replicas that have applied the same operations hold the same list state. *)
+Theorem C01_list_system :
+  forall (author : op -> nat) (s : sys op) (r1 r2 : nat),
+    reachable lstate op tkey loid author l_exec_remote l_ready l_init s ->
+    Permutation (applied _ (reps _ s r1)) (applied _ (reps _ s r2)) ->
+    fold_left l_exec_remote (applied _ (reps _ s r1)) l_init = fold_left l_exec_remote (applied _ (reps _ s r2)) l_init.
+Proof. exact list_sys_convergence. Qed.
+Print Assumptions C01_list_system.
+
+(* ... and there every replica's applied sequence is executable and duplicate-free: the premises of C01_list hold *)
+Theorem C01_list_system_executable :
+  forall (author : op -> nat) (s : sys op) (r : nat),
+    reachable lstate op tkey loid author l_exec_remote l_ready l_init s ->
+    exec_ok lstate op l_exec_remote l_ready l_init (applied _ (reps _ s r)) /\ NoDup (map loid (applied _ (reps _ s r))).
+Proof. exact list_sys_executable. Qed.
+Print Assumptions C01_list_system_executable.
+
+(* readiness in the system, as a function of the set of applied operations: the addressed elements were created by
+   applied operations ([avail]) and the operation's timestamp is new to the replica *)
+Theorem C01_list_system_ready_is : forall l o,
+  exec_ok lstate op l_exec_remote l_ready l_init l ->
+  (l_ready (fold_left l_exec_remote l l_init) o <-> l_dsat l o /\ l_fr l o).
+Proof. exact l_ready_iff. Qed.
+Print Assumptions C01_list_system_ready_is.
+
+(* non-vacuity: the system leaves its initial state — a replica generates a head insert of two elements *)
+Example C01_list_system_example :
+  let o1 := OIns (mkOpid 0 1 [97]%N 1) oldest_ts [VStr [1]%N; VStr [2]%N] in
+  exists s, reachable lstate op tkey loid (fun _ => 0%nat) l_exec_remote l_ready l_init s /\ applied _ (reps _ s 0%nat) = [o1].
+Proof.
+  cbv zeta. eexists. split.
+  - eapply RS; [apply R0|]. eapply (Gen lstate op tkey loid (fun _ => 0%nat) l_exec_remote l_ready l_init (init_sys op) 0%nat (OIns (mkOpid 0 1 [97]%N 1) oldest_ts [VStr [1]%N; VStr [2]%N])).
+    + reflexivity.
+    + intros o' H. exfalso. unfold all_ops in H. cbn in H. destruct H as [H|[r [H|H]]]; exact H.
+    + unfold l_ready. cbn [lready]. split; [vm_compute; split; reflexivity|]. split; [vm_compute; intuition discriminate|left; reflexivity].
+  - cbn. unfold upd. cbn. reflexivity.
+Qed.
+Print Assumptions C01_list_system_example.
